@@ -16,6 +16,7 @@ RULE = ("dense / sparse / Kruskal / Tucker holders of random integer data on sha
         "targets; every subset of modes for sparse partial reshape; non-trivial = accepted, more than one cell "
         "and a non-identity map; distinct = distinct case hash")
 ASSUMPTIONS = ["np.transpose / F-order reshape / np.squeeze have the logical index semantics of the model primitives"]
+ANCHORS = [('pyttb/tensor.py', 'tensor.permute'), ('pyttb/tensor.py', 'tensor.reshape'), ('pyttb/tensor.py', 'tensor.squeeze'), ('pyttb/sptensor.py', 'sptensor.permute'), ('pyttb/sptensor.py', 'sptensor.reshape'), ('pyttb/sptensor.py', 'sptensor.squeeze'), ('pyttb/ktensor.py', 'ktensor.permute'), ('pyttb/ttensor.py', 'ttensor.permute')]
 EXHAUSTIVE = {"quick": False, "thorough": False}
 
 
